@@ -588,6 +588,43 @@ def inline_call(model, fi, call: ast.Call, depth: int = 2) -> Optional[ast.AST]:
     return out
 
 
+def _procedure_body(h: ast.FunctionDef, call: ast.Call) -> Optional[List[ast.stmt]]:
+    """Body of the helper procedure `h` with its parameters replaced by the call's arguments, or None when h is not a
+    plain procedure (returns a value, binds local names, has *args/**kwargs, or an argument is not a simple expression)."""
+    if h.args.vararg or h.args.kwarg or any(isinstance(n, ast.Return) and n.value is not None for n in ast.walk(h)):
+        return None
+    if any(isinstance(n, (ast.Yield, ast.YieldFrom, ast.FunctionDef, ast.Lambda, ast.Global, ast.Nonlocal)) and n is not h for n in ast.walk(h)):
+        return None
+    try:
+        bound = call_args(call, h)
+    except Exception:
+        return None
+    params = {a.arg for a in h.args.posonlyargs + h.args.args + h.args.kwonlyargs}
+    if any(v is None for k, v in bound.items() if k in params) or set(bound) != params:
+        return None
+    if not all(isinstance(v, (ast.Name, ast.Attribute, ast.Constant, ast.Subscript)) for v in bound.values()):
+        return None
+    aug_targets = {id(n.target) for n in ast.walk(h) if isinstance(n, ast.AugAssign) and isinstance(n.target, ast.Name) and n.target.id in params}
+    for n in ast.walk(h):
+        if isinstance(n, ast.Name) and isinstance(n.ctx, ast.Store) and id(n) not in aug_targets:
+            return None  # binds a name (a local, a loop variable, or re-binds a parameter): not a plain procedure
+    # (an augmented assignment to a parameter is an in-place update of the caller's array in this code base)
+    body = [st for st in h.body if not (isinstance(st, ast.Expr) and isinstance(st.value, ast.Constant))]
+    out = []
+    for st in body:
+        class S(ast.NodeTransformer):
+            def visit_Name(self, n):
+                if n.id in bound:
+                    return ast.parse(f"({norm(bound[n.id])})", mode="eval").body
+                return n
+        try:
+            new = S().visit(ast.parse(ast.unparse(st)).body[0])
+            out.append(ast.parse(ast.unparse(ast.fix_missing_locations(new))).body[0])
+        except SyntaxError:
+            return None
+    return out
+
+
 def inlined_function(model, fi, depth: int = 3, same_module_private_only: bool = True) -> ast.FunctionDef:
     """A clone of fi's FunctionDef in which calls to pure-return helpers (same module, private name, one `return <expr>`)
     are replaced by the helper's expression (locals expanded, parameters substituted), recursively up to `depth`.
@@ -616,6 +653,36 @@ def inlined_function(model, fi, depth: int = 3, same_module_private_only: bool =
                             return e
                 return n
         clone = T().visit(clone)
+        ast.fix_missing_locations(clone)
+
+        # helper *procedures* (no returned value, straight-line or branching body without local name bindings other than
+        # stores into their parameters): the call statement is replaced by the body with the arguments substituted
+        class P(ast.NodeTransformer):
+            def _splice(self, stmts):
+                nonlocal changed
+                out = []
+                for st in stmts:
+                    st = self.generic_visit(st)
+                    body = None
+                    if isinstance(st, ast.Expr) and isinstance(st.value, ast.Call) and isinstance(st.value.func, ast.Name) \
+                            and (st.value.func.id.startswith("_") or not same_module_private_only):
+                        q = model.resolve_call(fi, st.value)
+                        if q and q in model.funcs and (model.funcs[q].module == fi.module or not same_module_private_only) and q != fi.qname:
+                            body = _procedure_body(model.funcs[q].node, st.value)
+                    if body is None:
+                        out.append(st)
+                    else:
+                        changed = True
+                        out.extend(body)
+                return out
+
+            def generic_visit(self, node):
+                for field in ("body", "orelse", "finalbody"):
+                    v = getattr(node, field, None)
+                    if isinstance(v, list) and v and isinstance(v[0], ast.stmt):
+                        setattr(node, field, self._splice(v))
+                return node
+        clone = P().generic_visit(clone)
         ast.fix_missing_locations(clone)
         clone = ast.parse(ast.unparse(clone)).body[0]
         link(clone)
